@@ -3,8 +3,10 @@ package main
 import (
 	"fmt"
 	"go/ast"
+	"go/constant"
 	"go/token"
 	"go/types"
+	"os"
 	"sort"
 	"strings"
 
@@ -400,6 +402,45 @@ func ruleMergeConfigs(c *Ctx, r *Repo, cp *packages.Package) {
 			}
 		}
 		c.Check(over == "", "R08.2", "mergeConfigs|no-overwrite|"+class, r.Pos(loop.Pos()), "a field already set at the more specific level is never overwritten", fmt.Sprintf("a %s field that is already set at the more specific level is overwritten by the less specific one on path %s", class, over))
+	}
+	// map[string]any arm: the destination's map is replaced (by a fresh, empty one) exactly on the paths that
+	// have just seen it nil — replacing a non-nil map throws away what the more specific level wrote, and not
+	// replacing a nil one makes the key-wise merge store into a nil map (mechanical-mutation finding: the
+	// nil test negated)
+	{
+		nilAtom := func(a string) bool {
+			return (strings.HasPrefix(a, "DEST.Interface<") && strings.HasSuffix(a, " == nil")) || a == "DEST.IsNil<(reflect.Value).IsNil>()"
+		}
+		nMap := 0
+		for _, p := range d.paths {
+			if !consistent(p, "mapAny", false) && !consistent(p, "mapAny", true) {
+				continue
+			}
+			if os.Getenv("MVCHECK_DEBUG") != "" {
+				fmt.Println("R08.2 map arm path:", p.String())
+			}
+			seen, isNil := false, false
+			for _, a := range p.Atoms {
+				if nilAtom(a.Expr) {
+					seen, isNil = true, a.Val
+				}
+			}
+			sets := hasStep(p, "call DEST.Set<(reflect.Value).Set>(")
+			merges := len(p.CallsTo("config.mergeStringMaps"))
+			if merges == 0 && sets == 0 {
+				continue
+			}
+			nMap++
+			switch {
+			case sets > 0 && !(seen && isNil):
+				c.Fail("R08.2", "mergeConfigs|map-replaced-only-when-nil", r.Pos(loop.Pos()), "the destination's map[string]any field is replaced on a path that has not just seen it nil ("+p.String()+"): template-data written at the more specific level is thrown away before the merge")
+			case seen && isNil && merges > 0 && sets == 0:
+				c.Fail("R08.2", "mergeConfigs|nil-map-installed", r.Pos(loop.Pos()), "on a path that has seen the destination's map nil no map is installed before the key-wise merge ("+p.String()+"): the merge stores into a nil map")
+			default:
+				c.OK("R08.2", "mergeConfigs|map-replaced-only-when-nil", r.Pos(loop.Pos()), "destination map replaced exactly when seen nil")
+			}
+		}
+		c.Check(nMap > 0, "R08.2", "mergeConfigs|map-arm", r.Pos(loop.Pos()), "the map arm of the merge loop was found", "no path of the merge loop handles a map[string]any field")
 	}
 	// R08.3 pointer arm stores a fresh copy
 	fresh := true
@@ -899,6 +940,18 @@ func ruleLayering(c *Ctx, r *Repo, cp *packages.Package) {
 					return true
 				}
 				nTr++
+				// a counted strings.Replace among the normalisation steps replaces every occurrence (n < 0);
+				// with n >= 0 a variable with more than n underscores lands under a key nobody reads
+				ast.Inspect(body, func(m ast.Node) bool {
+					rc, ok := m.(*ast.CallExpr)
+					if !ok || calleeName(info, rc) != "strings.Replace" || len(rc.Args) != 4 {
+						return true
+					}
+					tv := info.Types[rc.Args[3]]
+					neg := tv.Value != nil && constant.Sign(tv.Value) < 0
+					c.Check(neg, "R08.5", "env-transformer|replace-count", r.Pos(rc.Pos()), "the counted replacement in the key normalisation replaces every occurrence (negative count)", "strings.Replace in the environment transformer is called with a count that is not a negative constant ("+types.ExprString(rc.Args[3])+"): only some '_' of a MOCKERY_* variable's name become '-', so multi-word parameters are not set from the environment")
+					return true
+				})
 				d := newDT(info)
 				st := &dtPath{env: map[types.Object]string{}}
 				i := 0
